@@ -637,6 +637,10 @@ def specs(tier):
         for lens in ([(2, 1)] if q else [(2, 1), (3, 2), (5, 1)]):
             out.append((MOD, "mk_names", (strat, "id_and_path", lens)))
     # (tags of 3x3 characters cost 8 CPU-hours per shape and found nothing the 3x2 / 2x2 instances did not: left out)
+    # "that tag client is reachable as a property of APIClient": the client.py / mock_client.py written by the real emitters
+    # for solver-chosen tag spellings (incl. names of APIClient's own members) import, and no tag property shares its
+    # name with another member of the class (obligation of props/c01.py)
+    out.append(("props.c01", "mk_client_package", ((1, 1),)))
     for shape, lenss in [((1, 1), [(1, 1), (2, 1), (2, 2)] if q else [(1, 1), (2, 1), (2, 2), (3, 2)]),
                          ((2,), [(1, 1), (2, 2)] if q else [(1, 1), (2, 1), (2, 2), (3, 2)]),
                          ((1, 0), [(1,), (2,)] if q else [(1,), (2,), (3,), (4,)]),
@@ -664,6 +668,10 @@ def run(tier, rep, only=None):
 def replay(path):
     v = json.load(open(path))["violation"]
     parts = v["obligation"].split("/")
+    if parts[0] == "client_package":
+        from props import c01
+
+        return c01.replay(path)
     if parts[0] == "names":
         lens = [len(v["inputs"][k]) for k in sorted(v["inputs"])]
         ob = Names(parts[1], parts[2], lens)
